@@ -1,4 +1,5 @@
 import St4sd.Model.ValSchema
+import St4sd.Model.Str
 /-!
 # C11 — abstract workflow document and `validate`
 
@@ -20,7 +21,16 @@ It stands for (python/experiment/model/…):
   value of a variable it mentions must be defined by the component or globally, without circular definitions
   (`resolveVar` with fuel; the Python recursion is cut by its own loop detection/`RecursionError` handling);
 * acyclicity — `networkx.topological_sort` in `replicate` / `networkx.find_cycle` in
-  `ComponentSpecification.checkDataReferences` (trusted) are represented by Kahn's algorithm with fuel.
+  `ComponentSpecification.checkDataReferences` (trusted) are represented by Kahn's algorithm with fuel.  The graph
+  it runs on is the replica-propagation graph of `FlowIR.propagate_replicate`: one producer → consumer edge per
+  declared component reference, whatever the `replicate`/`aggregate` attributes of the two ends are.  It is the
+  loader's only cycle check before the graph is expanded;
+* replication — `FlowIR.propagate_replicate` (`cnt`, `replErrors`: a component takes the `replicate` value of
+  its non-aggregating producers, all of which must agree with each other and with its own) and
+  `FlowIR.apply_replicate` / `compile_component_replica` / `compile_component_aggregate` (`expandDoc`: replica
+  `k` of `name` is `name<k>` and consumes replica `k` of its replicated producers, an aggregating component
+  keeps its name and consumes every replica); the expanded document is loaded again
+  (`FlowIRConcrete.refresh_component_dictionary`: duplicate identifiers after the expansion are reported).
 No Mathlib.
 -/
 namespace St4sd.Validate
@@ -36,6 +46,10 @@ structure Comp where
   opts : Val
   vars : List (S × List S)
   uses : List S
+  /-- `workflowAttributes.replicate` after variable substitution and `int()` (`none` = not set) -/
+  replicate : Option Nat := none
+  /-- `workflowAttributes.aggregate` after `to_bool` -/
+  aggregate : Bool := false
   deriving Inhabited
 
 structure Doc where
@@ -50,6 +64,8 @@ inductive Err where
   | undeclaredReferenceInArguments (c : Id) (r : Id)
   | undefinedVariable (c : Id) (v : S)
   | cycle
+  | inconsistentReplicate (c : Id)
+  | duplicateAfterReplication (i : Id)
   deriving DecidableEq, Repr
 
 def Comp.id (c : Comp) : Id := (c.stage, c.name)
@@ -124,13 +140,80 @@ def kahnRanks (d : Doc) : List (Id × Nat) := kahn (edges d) (ids d) (ids d).len
 /-- the graph is acyclic as far as Kahn's algorithm can tell: every node got a rank -/
 def acyclicB (d : Doc) : Bool := (ids d).all (isRanked (kahnRanks d))
 
+/-! ### replication: `propagate_replicate` and `apply_replicate` -/
+
+def findComp (d : Doc) (i : Id) : Option Comp := d.comps.find? (fun c => c.id == i)
+
+/-- `replicate_instructions[i][1]` -/
+def isAgg (d : Doc) (i : Id) : Bool :=
+  match findComp d i with
+  | some c => c.aggregate
+  | none => false
+
+/-- the producers whose `replicate` value flows into `c`: declared references to non-aggregating components -/
+def feeders (d : Doc) (c : Comp) : List Id := c.refs.filter (fun r => (ids d).contains r && !isAgg d r)
+
+def firstSome : List (Option Nat) → Option Nat
+  | [] => none
+  | some k :: _ => some k
+  | none :: rest => firstSome rest
+
+/-- the propagated `replicate` of a component: its own value or that of a feeder (they must agree, see
+`replErrors`); the recursion follows producer edges, `fuel` bounds the depth -/
+def propagated (d : Doc) : Nat → Id → Option Nat
+  | 0, _ => none
+  | fuel + 1, v =>
+    match findComp d v with
+    | none => none
+    | some c => firstSome (c.replicate :: (feeders d c).map (propagated d fuel))
+
+/-- number of replicas (`0`: not replicated) -/
+def cnt (d : Doc) (i : Id) : Nat := (propagated d ((ids d).length + 1) i).getD 0
+
+/-- "Replicate values of … predecessors are not consistent": every feeder that is replicated has the count of
+the component -/
+def replOk (d : Doc) (c : Comp) : Bool :=
+  (feeders d c).all (fun r => cnt d r == 0 || cnt d c.id == cnt d r)
+
+def replErrors (d : Doc) : List Err :=
+  (d.comps.filter (fun c => !replOk d c)).map (fun c => Err.inconsistentReplicate c.id)
+
+/-- the reference `r` is rewritten for the replicas / expanded by the aggregators that consume it -/
+def rewrites (d : Doc) (r : Id) : Bool := (ids d).contains r && !isAgg d r && decide (0 < cnt d r)
+
+def replName (n : S) (k : Nat) : S := n ++ St4sd.Str.natToDigits k
+
+def replicaRef (d : Doc) (k : Nat) (r : Id) : Id := if rewrites d r then (r.1, replName r.2 k) else r
+
+def aggRefs (d : Doc) (n : Nat) (r : Id) : List Id :=
+  if rewrites d r then (List.range n).map (fun k => (r.1, replName r.2 k)) else [r]
+
+/-- `apply_replicate` on one component -/
+def expandComp (d : Doc) (c : Comp) : List Comp :=
+  if rewrites d c.id then
+    (List.range (cnt d c.id)).map (fun k =>
+      { c with name := replName c.name k, refs := c.refs.map (replicaRef d k),
+               argRefs := c.argRefs.map (replicaRef d k) })
+  else if isAgg d c.id then
+    [{ c with refs := c.refs.flatMap (aggRefs d (cnt d c.id)),
+              argRefs := c.argRefs.flatMap (aggRefs d (cnt d c.id)) }]
+  else [c]
+
+/-- the expanded (replicated) document: what the workflow graph is built from -/
+def expandDoc (d : Doc) : Doc := { d with comps := d.comps.flatMap (expandComp d) }
+
+def dupErrorsExpanded : List Id → List Err
+  | [] => []
+  | i :: rest => (if rest.contains i then [Err.duplicateAfterReplication i] else []) ++ dupErrorsExpanded rest
+
 /-! ### the whole check -/
 
 def compErrors (tbl : List (S × Conv)) (sch : Schema) (d : Doc) (c : Comp) : List Err :=
   ((optErrors tbl sch c.opts).map (Err.option c.id)) ++ refErrors d c ++ varErrors d c
 
 def validate (tbl : List (S × Conv)) (sch : Schema) (d : Doc) : List Err :=
-  dupErrors (ids d) ++ d.comps.flatMap (compErrors tbl sch d) ++ (if acyclicB d then [] else [Err.cycle])
+  dupErrors (ids d) ++ d.comps.flatMap (compErrors tbl sch d) ++ (if acyclicB d then [] else [Err.cycle]) ++
+  replErrors d ++ dupErrorsExpanded (ids (expandDoc d))
 
 def accepts (tbl : List (S × Conv)) (sch : Schema) (d : Doc) : Bool := (validate tbl sch d).isEmpty
 
